@@ -241,7 +241,10 @@ def run_lines(binary, lines, timeout=600, env_extra=None):
     out = p.stdout.split("\n")
     if out and out[-1] == "":
         out.pop()
-    return out, p.returncode, p.stderr[-3000:]
+    err = p.stderr
+    if len(err) > 4000:
+        err = err[:2000] + "\n...\n" + err[-2000:]
+    return out, p.returncode, err
 
 
 def run_driver(lines, timeout=600):
